@@ -1,18 +1,24 @@
 ------------------------------ MODULE MC_Gossip ------------------------------
 EXTENDS Gossip, Json, TLC
-CONSTANTS MaxOps, MaxPeriodic, Gen
-VARIABLES nops, nper, hist
-View == <<loc, st, routes, bc, gs, live, wire, nops, nper>>        \* the clock value itself is irrelevant up to order: kept via st
+CONSTANTS MaxOps, MaxPeriodic, MaxFaults, Gen
+VARIABLES nops, nper, nflt, hist
+View == <<loc, st, routes, bc, gs, up, members, live, wire, nops, nper, nflt>>        \* the clock value itself is irrelevant up to order: kept via st
 Emit(a) == /\ hist' = IF Gen = "sim" THEN Append(hist, a) ELSE hist
-MCInit == GInit /\ nops = 0 /\ nper = 0 /\ hist = <<>>
+MCInit == GInit /\ nops = 0 /\ nper = 0 /\ nflt = 0 /\ hist = <<>>
+(* schedule generation only: break a link when it matters (something is routed and nothing is in flight) *)
+FaultOK == Gen # "sim" \/ (Quiescent /\ \E b \in Brokers : routes[b] # {})
 PickW(seq) == IF Gen = "sim" THEN {seq[RandomElement(1..Len(seq))]} ELSE {seq[i] : i \in 1..Len(seq)}
 MCNext ==
-    \/ \E b \in Brokers, s \in Ssids : /\ nops < MaxOps /\ nops' = nops + 1 /\ UNCHANGED nper
+    \/ \E b \in Brokers, s \in Ssids : /\ nops < MaxOps /\ nops' = nops + 1 /\ UNCHANGED <<nper, nflt>>
                                        /\ \/ ClientSub(b, s)   /\ Emit([n |-> "sub", b |-> b, s |-> s])
                                           \/ ClientUnsub(b, s) /\ Emit([n |-> "unsub", b |-> b, s |-> s])
-    \/ \E b \in Brokers : /\ nper < MaxPeriodic /\ nper' = nper + 1 /\ UNCHANGED nops
+    \/ \E b \in Brokers : /\ nper < MaxPeriodic /\ nper' = nper + 1 /\ UNCHANGED <<nops, nflt>>
                           /\ Periodic(b) /\ Emit([n |-> "periodic", b |-> b])
     \/ \E b, n \in Brokers : /\ UNCHANGED <<nops, nper>>
+                             /\ \/ /\ nflt < MaxFaults /\ FaultOK /\ LinkDown(b, n) /\ nflt' = nflt + 1 /\ Emit([n |-> "linkdown", b |-> b, to |-> n])
+                                \/ /\ LinkUp(b, n) /\ UNCHANGED nflt /\ Emit([n |-> "linkup", b |-> b, to |-> n])
+                                \/ /\ PeerGC(b, n) /\ UNCHANGED nflt /\ Emit([n |-> "gc", b |-> b, to |-> n])
+    \/ \E b, n \in Brokers : /\ UNCHANGED <<nops, nper, nflt>>
                              /\ \/ Pick(b, n)    /\ Emit([n |-> "pick", b |-> b, to |-> n])
                                 \/ Deliver(b, n) /\ Emit([n |-> "deliver", b |-> b, to |-> n])
 Dump == Gen # "sim" \/ Len(hist) < 2 \/ PrintT(<<"BEH", ToJson(hist)>>)
